@@ -187,6 +187,18 @@ func dischargeAll(ctxs []*Ctx, workdir string, secs int, requireAll bool, par in
 			q := j.c.buildQuery(j.o, true)
 			j.o.QueryLen = len(q)
 			r := solveQuery(workdir, j.o.Name, q, secs, requireAll && !j.o.Cover)
+			if j.o.Cover && r.result != "sat" && r.result != "unsat" && strings.Contains(q, "(forall ") {
+				// reachability with quantified hypotheses is rarely decidable as sat: re-run on the
+				// quantifier-free part (still refutes contradictions among the ground facts)
+				j.o.relaxed = true
+				q2 := j.c.buildQuery(j.o, true)
+				r2 := solveQuery(workdir, j.o.Name+"-qf", q2, secs, false)
+				if r2.result == "sat" {
+					r2.solver += "(qf-relaxed)"
+				}
+				r2.secs += r.secs
+				r = r2
+			}
 			j.o.Result = r.result
 			j.o.Solver = r.solver
 			j.o.Secs = r.secs
